@@ -332,7 +332,22 @@ def broadcast_padding(f, e, env, pred_arg, pad_call):
     return f"the padding predicate is index {pad_when.__name__ if pad_when else '?'} size, not index >= size"
 
 
+def nan_comparisons(ctx):
+    """recognised wrong wherever it stands in the kernel: a comparison with NaN.  `x != np.nan` is True for every x (NaN included) and
+    `x == np.nan` False for every x, so a padding mask written that way masks nothing / everything"""
+    f = ctx.fn(KERNEL)
+    NANS = ("np.nan", "numpy.nan", "math.nan", "float('nan')", 'float("nan")', "np.NaN", "np.NAN")
+    hits = [n for n in ast.walk(f.node) if isinstance(n, ast.Compare) and len(n.ops) == 1 and isinstance(n.ops[0], (ast.Eq, ast.NotEq))
+            and (U(n.left) in NANS or U(n.comparators[0]) in NANS)]
+    for n in hits:
+        ctx.bad("R2", f"{f.site()}::comparison-with-nan", f"`{U(n)}` compares with NaN: the result is {'True' if isinstance(n.ops[0], ast.NotEq) else 'False'} for every element, "
+                f"padded or not - the padded cells are not told apart from real experiments, so a plate's score depends on the sizes of the plates scored with it")
+    return bool(hits)
+
+
 def r2(ctx):
+    if nan_comparisons(ctx):
+        return
     # producers
     for q, kernel_kw in ((f"{GD}.dbal_fast_gaussian_scoring_heteroscedastic", True), (f"{GD}.dbal_fast_gaussian_scoring_homoscedastic", True), (f"{GD}.GaussianDBALScorer.score", True)):
         f = ctx.fn(q)
@@ -749,6 +764,7 @@ def _rep(a, b):
 
 
 WITNESSES = [
+    ("padding mask by comparison with NaN", "batchie.scoring.gaussian_dbal", _rep("    mask = ~np.isnan(variances)", "    mask = variances != np.nan"), ["R2"]),
     ("epsilon added to alpha", "batchie.scoring.gaussian_dbal",
      _rep("        + padded_variances[:, idx1, :] * padded_variances[:, idx3, :]\n    )\n    exp_factor", "        + padded_variances[:, idx1, :] * padded_variances[:, idx3, :]\n        + 1e-8\n    )\n    exp_factor"), ["R14"]),
     ("epsilon inside the triple-distance logarithm", "batchie.scoring.gaussian_dbal",
